@@ -127,7 +127,10 @@ def overdict(v, is_bad):
     if k == "err":
         chain = v.get("chain") or []
         root = v["root"]
-        if is_bad and all(c in ("provide", "invalid") for c in chain) and root["k"] in ("invalid", "groupopt", "foreign"):
+        if is_bad and (root["k"] == "foreign" or any(c not in LINKS for c in chain)):
+            # a rejection that bottoms out in a non-dig error
+            return "(OVErr [] QForeign)"
+        if is_bad and all(c in ("provide", "invalid") for c in chain) and root["k"] in ("invalid", "groupopt"):
             # a rejected malformed input: the model only says "invalid input";
             # the exact nesting of errInvalidInput wrappers is not modelled
             return "(OVErr [] QInvalidLeaf)"
